@@ -250,6 +250,9 @@ func runC09(c *Ctx) {
 		c.Check(len(w.G(fa).Find(calls("encoding/json.Encoder.Encode"))) == 1, r5, "TransactionLog.Add: one JSON record per call", fa.Decl.Pos(), "one Encode", "writer changed shape", nil)
 	}
 
+	r6 := c.Rule("R6", "the count delta the replay has to subtract survives the log encoding (shared with C06.R7)", 3)
+	replayDeltaRule(c, r6)
+
 	r4 := c.Rule("R4", "undo table: the dead-transaction log replay (transactionLog.rollback) has a `Key == step` block for every persistent commit step, the block calls the step's undo function, and the `lastCommittedFunctionLog OP K` gate of that call admits every last-logged state in which the live rollback undoes the step (shared with C07.R1)", 25)
 	commitUndoRules(c, r4, "", "", "", "")
 }
